@@ -1367,7 +1367,7 @@ int safec_vsnprintf_s(out_fct_type out, const char *funcname, char *buffer,
 #endif // PRINTF_SUPPORT_EXPONENTIAL
 #endif // PRINTF_SUPPORT_FLOAT
         case 'c': {
-            unsigned int l = 1U;
+            unsigned int l = 1U, nbytes = 1U, k;
             char wstr[MB_LEN_MAX + 1]; /* glibc encodes up to 6 bytes */
             if (flags & FLAGS_LONG) {
 #ifndef SAFECLIB_DISABLE_WCHAR
@@ -1386,7 +1386,7 @@ int safec_vsnprintf_s(out_fct_type out, const char *funcname, char *buffer,
                     return len;
                 }
                 wstr[len] = '\0';
-                l = (unsigned int)len;
+                l = nbytes = (unsigned int)len;
 #else
                 char msg[80];
                 snprintf(msg, sizeof msg, "%s: unsupported %%lc arg", funcname);
@@ -1404,9 +1404,10 @@ int safec_vsnprintf_s(out_fct_type out, const char *funcname, char *buffer,
             }
             // char output
             if (flags & FLAGS_LONG) {
-                char *p = &wstr[0];
-                while (*p != 0) {
-                    rc = out(*(p++), buffer, idx++, bufsize);
+                /* every byte of the character: the null wide character is one
+                   NUL byte, as it is for %c */
+                for (k = 0; k < nbytes; k++) {
+                    rc = out(wstr[k], buffer, idx++, bufsize);
                     if (unlikely(rc < 0))
                         return rc;
                 }
